@@ -19,7 +19,7 @@ def msgStr (o : Opts) (m : Msg) : String :=
   let tail := s!" sz={size o m} ok={if fits o m then 1 else 0}"
   match m with
   | .wd4 ns => "w4 " ++ nlrisStr ns ++ tail
-  | .ann4 a ns => s!"a4 {a.key} " ++ nlrisStr ns ++ tail
+  | .ann4 a nh ns => s!"a4 {a.key} {nhStr nh} " ++ nlrisStr ns ++ tail
   | .unreach f ns => s!"un {f} " ++ nlrisStr ns ++ tail
   | .reach f a nh ns => s!"re {f} {a.key} {nhStr nh} " ++ nlrisStr ns ++ tail
   | .eor f => s!"eor {f}" ++ tail
@@ -29,10 +29,10 @@ def sortStrs (l : List String) : List String := l.mergeSort (fun a b => !(b < a)
 def parsePath (ts : List String) : Option Path :=
   match ts with
   | [f, bits, pfx, id, hash, "0"] =>
-    some ⟨⟨nat! f, ⟨nat! bits, nat! pfx, nat! id⟩, none⟩, nat! hash⟩
-  | [f, bits, pfx, id, hash, "1", ak, al, nhp, nk, nl, ncl] =>
-    let nh : Option NH := if b! nhp then some ⟨nat! nk, nat! nl, nat! ncl⟩ else none
-    some ⟨⟨nat! f, ⟨nat! bits, nat! pfx, nat! id⟩, some ⟨⟨nat! ak, nat! al⟩, nh⟩⟩, nat! hash⟩
+    some ⟨⟨nat! f, ⟨nat! bits, nat! pfx, nat! id⟩, none⟩, nat! hash, 0⟩
+  | [f, bits, pfx, id, hash, "1", ak, al, nhp, nk, nl, ncl, nv4, grp] =>
+    let nh : Option NH := if b! nhp then some ⟨nat! nk, nat! nl, nat! ncl, b! nv4⟩ else none
+    some ⟨⟨nat! f, ⟨nat! bits, nat! pfx, nat! id⟩, some ⟨⟨nat! ak, nat! al⟩, nh⟩⟩, nat! hash, nat! grp⟩
   | _ => none
 
 def step (s : St) (ts : List String) : St × List String :=
